@@ -731,6 +731,8 @@ def _norm1(e, ctx):
             return b[1][e[2][1]]                        # (a, b, c)[1] == b
         if b[0] == 'call' and b[1][0] == 'attr' and b[1][2] == 'get' and len(b[2]) == 1 and not b[3]:
             return ('sub', ('sub', b[1][1], b[2][0]), e[2])     # D.get(k)[i] == D[k][i] (subscripting implies presence)
+        if b[0] == 'item' and e[2][0] == 'const' and isinstance(e[2][1], int) and not isinstance(e[2][1], bool) and e[2][1] >= 0:
+            return ('item', b[1], tuple(b[2]) + (e[2][1],))      # component k of a loop item: the path of a tuple-unpacking target
         return None
     if k == 'slice':
         lo, hi, st = e[1], e[2], e[3]
